@@ -146,10 +146,10 @@ Proof.
 Qed.
 
 (* P-frames *)
-Theorem request_stream_reading_of_layout hb pieces tb g :
+Theorem request_stream_reading_of_layout_with sc hb pieces tb g :
   payload_ok hb -> Forall payload_ok pieces -> match tb with Some b => payload_ok b | None => True end ->
   match g with Some x => x < 148764065110560899 | None => True end ->
-  rfc_stream_reading (concat (map rfc_frame_bytes (SHeaders hb :: map SData pieces ++
+  rfc_stream_reading_with sc (concat (map rfc_frame_bytes (SHeaders hb :: map SData pieces ++
       match tb with Some b => [SHeaders b] | None => [] end ++
       match g with Some x => [SGrease x] | None => [] end)))
   = RFirst hb :: flush_items (concat pieces) ++ [RDataEnd; RTrailers tb].
@@ -159,20 +159,29 @@ Proof.
     with (tail_frames tb g).
   set (tailf := tail_frames tb g).
   set (fs := SHeaders hb :: map SData pieces ++ tailf).
-  assert (Hout : frame_outcome no_settings_check (concat (map rfc_frame_bytes fs)) Finished =
+  assert (Hout : frame_outcome sc (concat (map rfc_frame_bytes fs)) Finished =
                  (TFrame (FHeaders hb) :: data_tokens pieces ++ match tb with Some b => [TFrame (FHeaders b)] | None => [] end,
                   CleanEnd)).
   { unfold frame_outcome.
-    apply (outcome_fuel_mono no_settings_check Finished (S (length pieces + (length tailf + 1)))); [|discriminate|].
+    apply (outcome_fuel_mono sc Finished (S (length pieces + (length tailf + 1)))); [|discriminate|].
     - unfold fs. cbn [map concat rfc_frame_bytes].
       rewrite outcome_frame; [|reflexivity|exact Hhb|discriminate].
       change (RFC9114Wire.T_HEADERS =? Frames.T_DATA) with false. cbv iota.
       change RFC9114Wire.T_HEADERS with Frames.T_HEADERS. rewrite classify_headers.
       rewrite map_app, concat_app. unfold tailf.
-      rewrite (outcome_data no_settings_check pieces _ (length (tail_frames tb g) + 1) _ Hp (outcome_tail no_settings_check tb g 0 Ht Hg)).
+      rewrite (outcome_data sc pieces _ (length (tail_frames tb g) + 1) _ Hp (outcome_tail sc tb g 0 Ht Hg)).
       reflexivity.
     - pose proof (flat_len_bound fs) as Hb. unfold fs in Hb at 1. cbn [length] in Hb. rewrite app_length, map_length in Hb.
       lia. }
-  unfold rfc_stream_reading. rewrite Hout. cbn [read_tokens]. f_equal.
+  unfold rfc_stream_reading_with. rewrite Hout. cbn [read_tokens]. f_equal.
   rewrite read_data_tokens. cbn [app]. destruct tb as [b|]; cbn [read_tokens]; reflexivity.
 Qed.
+
+Theorem request_stream_reading_of_layout hb pieces tb g :
+  payload_ok hb -> Forall payload_ok pieces -> match tb with Some b => payload_ok b | None => True end ->
+  match g with Some x => x < 148764065110560899 | None => True end ->
+  rfc_stream_reading (concat (map rfc_frame_bytes (SHeaders hb :: map SData pieces ++
+      match tb with Some b => [SHeaders b] | None => [] end ++
+      match g with Some x => [SGrease x] | None => [] end)))
+  = RFirst hb :: flush_items (concat pieces) ++ [RDataEnd; RTrailers tb].
+Proof. exact (request_stream_reading_of_layout_with no_settings_check hb pieces tb g). Qed.
